@@ -171,3 +171,49 @@ Theorem C08_code_tie_List_and_Delist :
        else None).
 Proof. intros s sg n price. exact (conj (do_list_is_the_interpretation s sg n price) (do_delist_is_the_interpretation s sg n)). Qed.
 Print Assumptions C08_code_tie_List_and_Delist.
+
+
+(* a name's data and its records change only through UpdateName / AddRecord / DelRecord signed by the holder of the
+   live name (generated from the current source): every refusal comes before the one write *)
+Theorem C08_code_tie_Update_and_records :
+  forall s (sg : addr) n data rec_raw rec_lower value value_has_dot sub,
+    (let w := the_name s n in
+     do_update s sg n data
+     = if ok_of (gen_UpdateName (GoTieRnsOwn.is_some (nm_key n)) (GoTieRnsOwn.is_some w) true
+                   (match w with Some r => negb (addr_eqb (n_value r) (canon sg)) | None => false end)
+                   (height s) (match w with Some r => n_expires r | None => 0 end))
+       then match nm_key n, w with
+            | Some k, Some r => Some (set_names s (aset N.eqb (names s) k (with_data r data)))
+            | _, _ => None
+            end
+       else None) /\
+    (let w := the_name s n in
+     do_add_record s sg n rec_raw rec_lower value value_has_dot data
+     = if ok_of (gen_AddRecord (GoTieRnsOwn.is_some (nm_key n)) (GoTieRnsOwn.is_some w) (height s) (match w with Some r => n_expires r | None => 0 end)
+                   (match w with Some r => negb (addr_eqb sg (n_value r)) | None => false end) value_has_dot
+                   (match w with Some r => existsb (fun sd => N.eqb (sr_name sd) rec_raw) (n_subs r) | None => false end))
+       then match nm_key n, w with
+            | Some k, Some r =>
+                Some (set_names s (aset N.eqb (names s) k
+                       (with_subs r (n_subs r ++ [{| sr_name := rec_lower; sr_value := value; sr_data := data; sr_expires := n_expires r |}]))))
+            | _, _ => None
+            end
+       else None) /\
+    (let w := match nm_key n, sub with Some _, Some (_, k) => get_name s k | _, _ => None end in
+     do_del_record s sg n sub
+     = if ok_of (gen_DelRecord (GoTieRnsOwn.is_some (nm_key n)) (GoTieRnsOwn.is_some sub) (GoTieRnsOwn.is_some w) (height s) (match w with Some r => n_expires r | None => 0 end)
+                   (match w with Some r => negb (addr_eqb sg (n_value r)) | None => false end)
+                   (match w, sub with Some r, Some (label, _) => existsb (fun sd => N.eqb (sr_name sd) label) (n_subs r) | _, _ => false end))
+       then match sub, w with
+            | Some (label, k), Some r =>
+                Some (set_names s (aset N.eqb (names s) k (with_subs r (filter (fun sd => negb (N.eqb (sr_name sd) label)) (n_subs r)))))
+            | _, _ => None
+            end
+       else None).
+Proof.
+  intros s sg n data rec_raw rec_lower value value_has_dot sub.
+  exact (conj (do_update_is_the_interpretation s sg n data)
+          (conj (do_add_record_is_the_interpretation s sg n rec_raw rec_lower value value_has_dot data)
+                (do_del_record_is_the_interpretation s sg n sub))).
+Qed.
+Print Assumptions C08_code_tie_Update_and_records.
